@@ -47,6 +47,9 @@ pub enum Case {
         /// dropping a receiver it never read from
         #[serde(default)]
         drain: bool,
+        /// (thread mode) the receiver goes away because the thread that owns it unwinds (panics)
+        #[serde(default)]
+        panic_drop: bool,
     },
 }
 
@@ -75,8 +78,8 @@ impl Prop for C09 {
         // size class 9: a message far larger than the kernel buffers - its send blocks until the
         // receiver reads or vanishes (the receiver of the race never reads, it only vanishes)
         let plan = (prop_oneof![6 => Just(0u8), 3 => 1u8..4, 1 => Just(9u8)], any::<bool>(), 0u16..2000).prop_map(|(size, attach, jitter)| SendPlan { size, attach, jitter });
-        let race = (proptest::collection::vec(plan, 1..9), 0u16..6000, any::<bool>(), any::<bool>(), any::<bool>())
-            .prop_map(|(sends, drop_jitter, by_process, bytes, drain)| Case::Race { sends, drop_jitter, by_process, bytes, drain });
+        let race = (proptest::collection::vec(plan, 1..9), 0u16..6000, any::<bool>(), any::<bool>(), any::<bool>(), proptest::bool::weighted(0.3))
+            .prop_map(|(sends, drop_jitter, by_process, bytes, drain, panic_drop)| Case::Race { sends, drop_jitter, by_process, bytes, drain, panic_drop });
         prop_oneof![3 => hist, 2 => race].boxed()
     }
 
@@ -104,7 +107,7 @@ impl Prop for C09 {
                     .with("rich_sends_err", s.rich_sends_err as u64)
                     .with("sends_to_in_transit_receiver", s.sends_to_in_transit_rx as u64))
             },
-            Case::Race { sends, drop_jitter, by_process, bytes, drain } => race(sends, *drop_jitter, *by_process, *bytes, *drain),
+            Case::Race { sends, drop_jitter, by_process, bytes, drain, panic_drop } => race(sends, *drop_jitter, *by_process, *bytes, *drain, *panic_drop),
         });
         match end {
             ChildEnd::Exited(0) => match res {
@@ -123,10 +126,11 @@ impl Prop for C09 {
     }
 }
 
-fn race(sends: &[SendPlan], drop_jitter: u16, by_process: bool, bytes: bool, drain: bool) -> Result<Outcome, Failure> {
+fn race(sends: &[SendPlan], drop_jitter: u16, by_process: bool, bytes: bool, drain: bool, panic_drop: bool) -> Result<Outcome, Failure> {
     let (f1, f) = c01::capacities();
     let by_process = by_process && !cfg!(feature = "inproc");
     let drain = drain && by_process;
+    let panic_drop = panic_drop && !by_process;
     let sh = ip::shared();
     sh.scratch[0].store(0, SeqCst); // go flag
     sh.scratch[1].store(0, SeqCst); // drop start stamp
@@ -165,7 +169,16 @@ fn race(sends: &[SendPlan], drop_jitter: u16, by_process: bool, bytes: bool, dra
         }
         sandbox::spin(drop_jitter as u32 * 16);
         sh.scratch[1].store(stamp(), SeqCst);
-        drop(rx);
+        if panic_drop {
+            // the owner of the receiver unwinds: the receiver is dropped by the panic machinery
+            let _ = std::panic::catch_unwind(std::panic::AssertUnwindSafe(move || {
+                let _owned = rx;
+                std::panic::panic_any("intended: the receiver's owner unwinds");
+            }));
+            let _ = crate::take_panics();
+        } else {
+            drop(rx);
+        }
         sh.scratch[2].store(stamp(), SeqCst);
     };
     let mut child = None;
@@ -283,6 +296,6 @@ fn race(sends: &[SendPlan], drop_jitter: u16, by_process: bool, bytes: bool, dra
             ensure!(*ok, "race:error-before-receiver-dropped", "send {} returned at stamp {} before the receiver's drop began (stamp {}) but failed", k, e, ds);
         }
     }
-    let class = format!("race/{}{}{}{}", if drain { "process-killed-while-reading" } else if by_process { "process" } else { "thread" }, if bytes { "+bytes" } else { "" }, if rich_after > 0 { "+rich-send-after-drop" } else if after > 0 { "+send-after-drop" } else { "" }, if huge_seen.load(SeqCst) && spanning { "+drop-during-blocked-huge-send" } else if huge_seen.load(SeqCst) { "+huge-send" } else { "" });
+    let class = format!("race/{}{}{}{}", if drain { "process-killed-while-reading" } else if by_process { "process" } else if panic_drop { "thread-unwinding" } else { "thread" }, if bytes { "+bytes" } else { "" }, if rich_after > 0 { "+rich-send-after-drop" } else if after > 0 { "+send-after-drop" } else { "" }, if huge_seen.load(SeqCst) && spanning { "+drop-during-blocked-huge-send" } else if huge_seen.load(SeqCst) { "+huge-send" } else { "" });
     Ok(Outcome::new(rich_after > 0, class).with("race_sends_after_drop", after))
 }
